@@ -1,5 +1,5 @@
 //! C05 — `*` matches any character sequence, everything else matches only itself.
-//! Oracle: humphrey::krauss::wildcard_match == reference DP glob matcher (both directions).
+//! Oracle: humphrey::krauss::wildcard_match and <String as Route>::route_matches == reference DP glob matcher (both directions).
 
 use crate::common::glob::{glob_match, glob_match_naive};
 use crate::engine::{hash_of, pt, Ctx, Fail};
@@ -8,27 +8,29 @@ use serde_json::{json, Value as J};
 
 pub fn check(p: &str, t: &str) -> Option<Fail> {
     let want = glob_match(p, t);
-    let got = match crate::engine::catch(|| humphrey::krauss::wildcard_match(p, t)) {
-        Ok(g) => g,
-        Err(m) => return Some(fail!("panic", "wildcard_match({:?},{:?}) panicked: {}", p, t, m)),
-    };
-    if got == want {
-        None
-    } else if want {
-        Some(fail!(
-            "false-negative",
-            "wildcard_match({:?}, {:?}) = false but the text is an instance of the pattern",
-            p,
-            t
-        ))
-    } else {
-        Some(fail!(
-            "false-positive",
-            "wildcard_match({:?}, {:?}) = true but the text is not an instance of the pattern",
-            p,
-            t
-        ))
+    // both public entry points: the matcher itself and the route-pattern entry point used when requests are routed
+    for (entry, name) in [(0u8, "wildcard_match"), (1u8, "Route::route_matches")] {
+        let got = match crate::engine::catch(|| {
+            if entry == 0 {
+                humphrey::krauss::wildcard_match(p, t)
+            } else {
+                use humphrey::route::Route;
+                p.to_string().route_matches(t)
+            }
+        }) {
+            Ok(g) => g,
+            Err(m) => return Some(fail!("panic", "{}({:?},{:?}) panicked: {}", name, p, t, m)),
+        };
+        if got != want {
+            let suffix = if entry == 0 { "" } else { ":route_matches" };
+            return Some(if want {
+                fail!(format!("false-negative{}", suffix), "{}({:?}, {:?}) = false but the text is an instance of the pattern", name, p, t)
+            } else {
+                fail!(format!("false-positive{}", suffix), "{}({:?}, {:?}) = true but the text is not an instance of the pattern", name, p, t)
+            });
+        }
     }
+    None
 }
 
 /// non-trivial: the pattern has a `*` followed by a literal char that occurs at least twice in the
